@@ -166,8 +166,9 @@ PROPS["C10"] = {
     "level_note": _thr_note + "Known findings (not repaired: the repair touches every send site and the Wait protocol): Wait after/overlapping Close and writers overlapping Close can block forever. Hybrid variants (HybridCache.Close is empty; secondary workers never exit) are listed under outside_bound for this check and reported by the C14/C15 programs.",
     "assumptions": ["one writer goroutine, one closer; entry pool off"],
     "outside_bound": ["hybrid cache Close paths (theine package wrappers)", "more than one writer", "preemption bound above 1"],
-    "quick": _c10(0),
-    "thorough": _c10(1),
+    "quick": _c10(0) + [H("ZZ_C10_RaceClose", params={"WQ": 64, "PRE": 1}, reach=["writer-and-closer-returned"], bounds="1 writer x3 vs Close, queue size 64, preemptions 1"),
+                        H("ZZ_C10_RaceClose", params={"WQ": 1, "PRE": 1}, reach=["writer-and-closer-returned"], bounds="1 writer x3 vs Close, queue size 1, preemptions 1")],
+    "thorough": _c10(1) + [H("ZZ_C10_RaceClose", params={"WQ": 64, "PRE": 2}, reach=["writer-and-closer-returned"], bounds="preemptions 2")],
 }
 
 PROPS["C01"] = {
@@ -230,8 +231,11 @@ PROPS["C08"] = {
     "quick": [H("ZZ_C08_LateFree", reach=["late-free-done"]), H("ZZ_C08_Atomic", params={"N0": 14, "ADDS": 1, "PRE": 2}, reach=["burst-over"]),
               H("ZZ_C08_Atomic", params={"N0": 15, "ADDS": 1, "PRE": 2}, reach=["burst-over"]),
               H("ZZ_C08_AtomicLate", params={"J": 15, "ADDS": 2, "PRE": 2}, reach=["burst-over"]),
+              H("ZZ_C08_StaleView", params={"N0": 0, "YADDS": 20, "PRE": 1}, reach=["burst-over"], bounds="one reader preempted anywhere inside Add while another performs 20 Adds"),
+              H("ZZ_C08_StaleView", params={"N0": 7, "YADDS": 30, "PRE": 1}, reach=["burst-over"]),
               H("ZZ_C08_Store", reach=["stall-over"])],
-    "thorough": [H("ZZ_C08_LateFree", reach=["late-free-done"]), H("ZZ_C08_Atomic", params={"N0": 14, "ADDS": 2, "PRE": 3}, reach=["burst-over"]),
+    "thorough": [H("ZZ_C08_StaleView", params={"N0": 0, "YADDS": 20, "PRE": 1}, reach=["burst-over"]), H("ZZ_C08_StaleView", params={"N0": 7, "YADDS": 30, "PRE": 1}, reach=["burst-over"]),
+                 H("ZZ_C08_StaleView", params={"N0": 0, "YADDS": 18, "PRE": 2}, reach=["burst-over"]), H("ZZ_C08_LateFree", reach=["late-free-done"]), H("ZZ_C08_Atomic", params={"N0": 14, "ADDS": 2, "PRE": 3}, reach=["burst-over"]),
                  H("ZZ_C08_Atomic", params={"N0": 15, "ADDS": 2, "PRE": 2}, reach=["burst-over"]),
                  H("ZZ_C08_AtomicLate", params={"J": 15, "ADDS": 2, "PRE": 3}, reach=["burst-over"]),
                  H("ZZ_C08_AtomicLate", params={"J": 14, "ADDS": 3, "PRE": 2}, reach=["burst-over"]),
